@@ -57,6 +57,10 @@ int disasm_dotnet(
           return 2;
       }
     }
+
+    // 0xfe followed by a byte that is not in the table.
+    strcpy(instruction, "???");
+    return 2;
   }
 
   n = 0;
